@@ -2,8 +2,9 @@
 // strings of a case file (one case per line, payload hex-encoded) and prints one canonical line per case.
 //   CSV  <data|cls|reg> <d|f> <F|L> <nout> <sep> <comment> <maxBatch> <s|f> <hex>
 //   SCL  <i|u|f|d> <sep> <comment> <maxBatch> <hex>
-//   SVM  <cls|reg> <d|f> <v|c> <highestIndex> <batchSize> <s|f> <hex>
-//   XCSV <data|cls|reg> <d|f> <F|L> <nout> <sep> <maxBatch> <s|f> <rows>      rows: lab|v,v,..;lab|v,..  (decimal)
+//   SVM  <cls|reg> <d|f> <v|c> <highestIndex> <batchSize> <s|f|S|F> <hex>     S|F: through the deprecated import_libsvm wrappers of Libsvm.h (cls, double)
+//   XCSV <data|cls|reg> <d|f> <F|L> <nout> <sep> <maxBatch> <s|f|S|F> <rows>  rows: lab|v,v,..;lab|v,..  (decimal); S|F: every LF of the exported text becomes CR LF before the re-import
+//   XINT <i|u> <sep> <maxBatch> <s|f> <rows>    exportCSV of Data<IntVector|UIntVector> (rows: |v,v;|v,v), re-imported as Data<RealVector> and as Data<int|unsigned>
 //   XSVM <cls|reg> <v|c> <batchSize> <rows>                                    rows: lab|v,v,..
 //   OBS  <numElements> <maximumBatchSize>     detail::optimalBatchSizes directly (64-bit decimals)   -> S s1,s2,..
 //   OBI  <numElements> <batchSize>            Data<unsigned>(numElements, 0, batchSize): SharedContainer::initializeBatches -> S s1,s2,..
@@ -14,6 +15,7 @@
 // (contents, batch structure, shape, exception); otherwise the line is  REUSE-DIFF fresh=[..] reused=[..].
 #include <shark/Data/Csv.h>
 #include <shark/Data/SparseData.h>
+#include <shark/Data/Libsvm.h>
 #include <cstdio>
 #include <cstring>
 #include <cmath>
@@ -182,6 +184,13 @@ template<class I, class L> static void svmCase(std::ostream& o, unsigned int hi,
 		[&](D& d) { if (file) importSparseData(d, toFile(bytes), hi, bs); else { std::istringstream is(bytes); importSparseData(d, is, hi, bs); } },
 		[](std::ostream& s, D const& d) { printLabeled<true>(s, d); });
 }
+// the deprecated wrappers of Libsvm.h (classification, double precision, dense or compressed)
+template<class I> static void libsvmCase(std::ostream& o, unsigned int hi, std::size_t bs, bool file, std::string const& bytes) {
+	typedef LabeledData<I, unsigned int> D;
+	o << twice<D>([](D& d) { preSvm(d); },
+		[&](D& d) { if (file) import_libsvm(d, toFile(bytes), hi, bs); else { std::istringstream is(bytes); import_libsvm(d, is, hi, bs); } },
+		[](std::ostream& s, D const& d) { printLabeled<true>(s, d); });
+}
 
 // ---- exporters (round trip) -----------------------------------------------------------------------
 struct Rows { std::vector<std::vector<double> > lab, in; };
@@ -204,8 +213,9 @@ template<class V> static std::vector<V> toVecs(std::vector<std::vector<double> >
 }
 static std::string slurp(std::string const& fn) { std::ifstream i(fn.c_str(), std::ios::binary); std::stringstream s; s << i.rdbuf(); return s.str(); }
 
+static std::string toCrlf(std::string const& s) { std::string r; for (char c : s) { if (c == '\n') r.push_back('\r'); r.push_back(c); } return r; }
 template<class T> static void xcsvCase(std::ostream& o, std::string const& variant, LabelPosition lp, std::size_t nout,
-		char sep, std::size_t mb, bool file, std::string const& rowsText) {
+		char sep, std::size_t mb, bool file, bool crlf, std::string const& rowsText) {
 	typedef blas::vector<T> V;
 	Rows r = parseRows(rowsText);
 	std::string text;
@@ -214,6 +224,7 @@ template<class T> static void xcsvCase(std::ostream& o, std::string const& varia
 		Data<V> d = createDataFromRange(toVecs<V>(r.in), mb);
 		if (file) { exportCSV(d, tmpname, sep); text = slurp(tmpname); }
 		else { std::ostringstream os; detail::exportCSV(d.elements(), os, sep); text = os.str(); }
+		if (crlf) text = toCrlf(text);
 		typedef Data<V> D;
 		imp << twice<D>([](D& b) { preData(b); }, [&](D& b) { csvStringToData(b, text, sep, '#', mb); }, [](std::ostream& s, D const& b) { printData(s, b); });
 	} else if (variant == "cls") {
@@ -221,16 +232,33 @@ template<class T> static void xcsvCase(std::ostream& o, std::string const& varia
 		LabeledData<V, unsigned int> d = createLabeledDataFromRange(toVecs<V>(r.in), l, mb);
 		if (file) { exportCSV(d, tmpname, lp, sep); text = slurp(tmpname); }
 		else { std::ostringstream os; detail::exportCSV_labeled(d.inputs().elements(), d.labels().elements(), os, lp, sep); text = os.str(); }
+		if (crlf) text = toCrlf(text);
 		typedef LabeledData<V, unsigned int> D;
 		imp << twice<D>([](D& b) { preCls(b); }, [&](D& b) { csvStringToData(b, text, lp, sep, '#', mb); }, [](std::ostream& s, D const& b) { printLabeled<false>(s, b); });
 	} else {
 		LabeledData<V, V> d = createLabeledDataFromRange(toVecs<V>(r.in), toVecs<V>(r.lab), mb);
 		if (file) { exportCSV(d, tmpname, lp, sep); text = slurp(tmpname); }
 		else { std::ostringstream os; detail::exportCSV_labeled(d.inputs().elements(), d.labels().elements(), os, lp, sep); text = os.str(); }
+		if (crlf) text = toCrlf(text);
 		typedef LabeledData<V, V> D;
 		imp << twice<D>([](D& b) { preReg(b); }, [&](D& b) { csvStringToData(b, text, lp, nout, sep, '#', mb); }, [](std::ostream& s, D const& b) { printLabeled<false>(s, b); });
 	}
 	o << "X text=" << hex(text) << " " << imp.str();
+}
+// exportCSV of integer-valued vectors; the text is read back by the vector importer and by the scalar importer
+template<class T> static void xintCase(std::ostream& o, char sep, std::size_t mb, bool file, std::string const& rowsText) {
+	typedef blas::vector<T> V;
+	Rows r = parseRows(rowsText);
+	std::vector<V> vs;
+	for (auto const& row : r.in) { V v(row.size()); for (std::size_t j = 0; j < row.size(); ++j) v(j) = (T)(long long)row[j]; vs.push_back(v); }
+	Data<V> d = createDataFromRange(vs, mb);
+	std::string text;
+	if (file) { exportCSV(d, tmpname, sep); text = slurp(tmpname); }
+	else { std::ostringstream os; detail::exportCSV(d.elements(), os, sep); text = os.str(); }
+	typedef Data<RealVector> D; typedef Data<T> S;
+	std::string a = twice<D>([](D& b) { preData(b); }, [&](D& b) { csvStringToData(b, text, sep, '#', mb); }, [](std::ostream& s, D const& b) { printData(s, b); });
+	std::string b = twice<S>([](S& x) { preScl(x); }, [&](S& x) { csvStringToData(x, text, sep, '#', mb); }, [](std::ostream& s, S const& x) { printScalar(s, x); });
+	o << "XI text=" << hex(text) << " ## " << a << " ## " << b;
 }
 template<class I> static void xsvmCase(std::ostream& o, std::string const& variant, std::size_t bs, std::string const& rowsText) {
 	Rows r = parseRows(rowsText);
@@ -302,10 +330,13 @@ static void runCase(std::ostream& o, std::vector<std::string> const& t) {
 		if (t[1] == "i") sclCase<int>(o, sep, cm, mb, file, bytes); else if (t[1] == "u") sclCase<unsigned int>(o, sep, cm, mb, file, bytes);
 		else if (t[1] == "f") sclCase<float>(o, sep, cm, mb, file, bytes); else sclCase<double>(o, sep, cm, mb, file, bytes);
 	} else if (k == "SVM") {
-		unsigned int hi = (unsigned int)std::stoul(t.at(4)); std::size_t bs = u64(t.at(5)); bool file = t.at(6) == "f";
+		unsigned int hi = (unsigned int)std::stoul(t.at(4)); std::size_t bs = u64(t.at(5)); bool file = t.at(6) == "f" || t.at(6) == "F";
+		bool wrapper = t.at(6) == "S" || t.at(6) == "F";
 		std::string bytes = unhex(t.size() > 7 ? t[7] : "");
 		bool cls = t[1] == "cls", dbl = t[2] == "d", dense = t[3] == "v";
-		if (cls) {
+		if (cls && dbl && wrapper) {
+			if (dense) libsvmCase<RealVector>(o, hi, bs, file, bytes); else libsvmCase<CompressedRealVector>(o, hi, bs, file, bytes);
+		} else if (cls) {
 			if (dbl && dense) svmCase<RealVector, unsigned int>(o, hi, bs, file, bytes);
 			else if (dbl) svmCase<CompressedRealVector, unsigned int>(o, hi, bs, file, bytes);
 			else if (dense) svmCase<FloatVector, unsigned int>(o, hi, bs, file, bytes);
@@ -318,9 +349,13 @@ static void runCase(std::ostream& o, std::vector<std::string> const& t) {
 		}
 	} else if (k == "XCSV") {
 		LabelPosition lp = t.at(3) == "F" ? FIRST_COLUMN : LAST_COLUMN;
-		std::size_t nout = std::stoul(t.at(4)); char sep = (char)std::stoi(t.at(5)); std::size_t mb = u64(t.at(6)); bool file = t.at(7) == "f";
-		if (t.at(2) == "d") xcsvCase<double>(o, t[1], lp, nout, sep, mb, file, t.at(8));
-		else xcsvCase<float>(o, t[1], lp, nout, sep, mb, file, t.at(8));
+		std::size_t nout = std::stoul(t.at(4)); char sep = (char)std::stoi(t.at(5)); std::size_t mb = u64(t.at(6)); bool file = t.at(7) == "f" || t.at(7) == "F";
+		bool crlf = t.at(7) == "S" || t.at(7) == "F";
+		if (t.at(2) == "d") xcsvCase<double>(o, t[1], lp, nout, sep, mb, file, crlf, t.at(8));
+		else xcsvCase<float>(o, t[1], lp, nout, sep, mb, file, crlf, t.at(8));
+	} else if (k == "XINT") {
+		char sep = (char)std::stoi(t.at(2)); std::size_t mb = u64(t.at(3)); bool file = t.at(4) == "f";
+		if (t.at(1) == "i") xintCase<int>(o, sep, mb, file, t.at(5)); else xintCase<unsigned int>(o, sep, mb, file, t.at(5));
 	} else if (k == "XSVM") {
 		std::size_t bs = u64(t.at(3));
 		if (t.at(2) == "v") xsvmCase<RealVector>(o, t[1], bs, t.at(4)); else xsvmCase<CompressedRealVector>(o, t[1], bs, t.at(4));
